@@ -64,7 +64,7 @@ func sharedBacking(w *core.World, v ssa.Value, depth int, seen map[ssa.Value]boo
 				}
 			}
 			for _, f := range callees {
-				if f.Blocks == nil || f.Pkg == nil || !strings.HasPrefix(f.Pkg.Pkg.Path(), core.Module) || strings.Contains(f.Pkg.Pkg.Path(), "/mocks/") {
+				if f.Blocks == nil || f.Pkg == nil || !strings.HasPrefix(core.PkgPath(f), core.Module) || strings.Contains(core.PkgPath(f), "/mocks/") {
 					continue
 				}
 				for _, ret := range core.Returns(f) {
@@ -104,7 +104,7 @@ func ruleSortShared(w *core.World, r *core.Report, rule string, pkgs ...string) 
 		}
 		in := false
 		for _, p := range pkgs {
-			if f.Pkg.Pkg.Path() == core.Module+"/"+p {
+			if core.PkgPath(f) == core.Module+"/"+p {
 				in = true
 			}
 		}
@@ -194,7 +194,7 @@ func globalsReachable(w *core.World, roots ...*ssa.Function) map[string][]ssa.In
 	reach := cg.Reachable(func(e core.Edge) bool { return e.Kind == "ref" }, roots...)
 	out := map[string][]ssa.Instruction{}
 	for f := range reach {
-		if f.Blocks == nil || f.Pkg == nil || !strings.HasPrefix(f.Pkg.Pkg.Path(), core.Module) || strings.Contains(f.Pkg.Pkg.Path(), "/mocks/") {
+		if f.Blocks == nil || f.Pkg == nil || !strings.HasPrefix(core.PkgPath(f), core.Module) || strings.Contains(core.PkgPath(f), "/mocks/") {
 			continue
 		}
 		for _, b := range f.Blocks {
@@ -340,7 +340,7 @@ func ruleDecimalSign(w *core.World, r *core.Report, rule string) {
 	formatters := []string{"strconv.FormatInt", "strconv.Itoa", "fmt.Sprintf", "fmt.Sprint", "fmt.Fprintf", "strconv.AppendInt"}
 	n := 0
 	for _, f := range w.RepoFns {
-		if f.Pkg == nil || strings.Contains(f.Pkg.Pkg.Path(), "/mocks/") || strings.HasSuffix(f.Pkg.Pkg.Path(), "/tests/sdcioygot") {
+		if f.Pkg == nil || strings.Contains(core.PkgPath(f), "/mocks/") || strings.HasSuffix(core.PkgPath(f), "/tests/sdcioygot") {
 			continue
 		}
 		var digits []ssa.Value
@@ -1212,7 +1212,7 @@ func ruleElemAppendOwned(w *core.World, r *core.Report, rule string) {
 		if f.Pkg == nil {
 			continue
 		}
-		pp := f.Pkg.Pkg.Path()
+		pp := core.PkgPath(f)
 		if !(strings.HasPrefix(pp, core.Module+"/pkg/utils") || strings.HasPrefix(pp, core.Module+"/pkg/tree") || strings.HasPrefix(pp, core.Module+"/pkg/datastore") || strings.HasPrefix(pp, core.Module+"/pkg/schema")) || strings.Contains(pp, "/mocks/") {
 			continue
 		}
